@@ -983,3 +983,51 @@ func VerifCSSHslNumbers(n int) {
 	vAssert(a1 == 255 && rcNear(r, r1) && rcNear(g, g1) && rcNear(b, b1), "hsl with bare numbers: the colour of the percentage reading or the function unchanged: "+string(val)+" => "+string(out))
 	vReach("end")
 }
+
+// VerifCSSBgPosLayers (C04): three comma separated layers, the first two from a short list, the last one of n tokens:
+// every layer of the output denotes the position of the same layer of the input.
+func VerifCSSBgPosLayers(n int) {
+	pre := []string{"0 0", "1px 0", "center", "0 1px"}
+	voc := []string{"left", "top", "right", "bottom", "0", "5px"}
+	l1, l2 := pre[vChoice("l1", len(pre))], pre[vChoice("l2", len(pre))]
+	var toks [][]byte
+	val := append(append(append([]byte(l1), ','), l2...), ',')
+	for i := 0; i < n; i++ {
+		u := voc[vChoice("p"+string(rune('0'+i)), len(voc))]
+		if i > 0 {
+			val = append(val, ' ')
+		}
+		val = append(val, u...)
+		toks = append(toks, []byte(u))
+	}
+	_, _, ok := rcBgPos(toks)
+	vAssume(ok)
+	in := [3][][]byte{rcSplit([]byte(l1)), rcSplit([]byte(l2)), toks}
+	out := verifDecl("background-position", val, &Minifier{})
+	var layers [][]byte
+	st := 0
+	for i := 0; i <= len(out); i++ {
+		if i == len(out) || out[i] == ',' {
+			layers = append(layers, out[st:i])
+			st = i + 1
+		}
+	}
+	vAssert(len(layers) == 3, "three layers stay three layers: "+string(out))
+	for k := 0; k < 3; k++ {
+		x0, y0, ok0 := rcBgPos(in[k])
+		vAssume(ok0)
+		x1, y1, ok1 := rcBgPos(rcSplit(layers[k]))
+		vAssert(ok1, "output layer is a valid <bg-position>: "+string(out))
+		for i, pr := range [2][2]rcPos{{x0, x1}, {y0, y1}} {
+			pa, ia, ea, oa := rcCanonPos(pr[0])
+			pb, ib, eb, ob := rcCanonPos(pr[1])
+			same := ia == ib && (ia && pa == pb || !ia && ea == eb && rcEq(oa, ob))
+			if i == 0 {
+				vAssert(same, "same horizontal position in every layer: "+string(val)+" => "+string(out))
+			} else {
+				vAssert(same, "same vertical position in every layer: "+string(val)+" => "+string(out))
+			}
+		}
+	}
+	vReach("end")
+}
